@@ -1198,19 +1198,36 @@ pub fn run_prop(prop: &Prop, tier: Tier, seed: u64) -> RunReport {
         "harness_problems": harness_problems,
     });
     let mut ev = ev;
-    if let Ok(aux) = std::env::var("VERIF_AUX_EVIDENCE") {
-        if let Ok(text) = std::fs::read_to_string(&aux) {
-            if let Ok(a) = serde_json::from_str::<Value>(&text) {
-                let ae = a["coverage"]["evaluations"].as_u64().unwrap_or(0);
-                let ad = a["coverage"]["distinct_nontrivial"].as_u64().unwrap_or(0);
-                ev["coverage"]["evaluations"] = json!(stats.evaluations + ae);
-                ev["coverage"]["distinct_nontrivial"] = json!(stats.distinct.len() as u64 + ad);
-                ev["coverage"]["aux_run"] = json!({
-                    "what": std::env::var("VERIF_AUX_WHAT").unwrap_or_default(),
-                    "coverage": a["coverage"], "violations": a["violations"], "wall_s": a["wall_s"],
-                });
-                ev["wall_s"] = json!(wall + a["wall_s"].as_f64().unwrap_or(0.0));
+    // other runs of the same check that belong to this invocation (another build configuration, the
+    // coverage-guided stage): VERIF_AUX_EVIDENCE = ':'-separated evidence files, VERIF_AUX_WHAT = '|'-
+    // separated descriptions; their counts are added and each is kept whole under aux_runs
+    if let Ok(auxs) = std::env::var("VERIF_AUX_EVIDENCE") {
+        let whats: Vec<String> = std::env::var("VERIF_AUX_WHAT").unwrap_or_default().split('|').map(|s| s.to_string()).collect();
+        let mut total_e = stats.evaluations;
+        let mut total_d = stats.distinct.len() as u64;
+        let mut total_w = wall;
+        let mut runs = vec![];
+        for (i, aux) in auxs.split(':').filter(|s| !s.is_empty()).enumerate() {
+            if let Ok(text) = std::fs::read_to_string(aux) {
+                if let Ok(a) = serde_json::from_str::<Value>(&text) {
+                    total_e += a["coverage"]["evaluations"].as_u64().unwrap_or(0);
+                    total_d += a["coverage"]["distinct_nontrivial"].as_u64().unwrap_or(0);
+                    total_w += a["wall_s"].as_f64().unwrap_or(0.0);
+                    runs.push(json!({
+                        "what": whats.get(i).cloned().unwrap_or_default(),
+                        "coverage": a["coverage"], "violations": a["violations"], "wall_s": a["wall_s"],
+                    }));
+                }
             }
+        }
+        if !runs.is_empty() {
+            ev["coverage"]["evaluations"] = json!(total_e);
+            ev["coverage"]["distinct_nontrivial"] = json!(total_d);
+            ev["wall_s"] = json!(total_w);
+            if runs.len() == 1 {
+                ev["coverage"]["aux_run"] = runs[0].clone();
+            }
+            ev["coverage"]["aux_runs"] = json!(runs);
         }
     }
     let evname = std::env::var("VERIF_EVIDENCE_NAME").unwrap_or_else(|_| format!("{}.json", prop.id));
